@@ -422,7 +422,7 @@ pub fn run_c12(ctx: &mut Ctx) {
         let k = 1 + rng.usize_below(2);
         let mc = 1 + rng.usize_below(50);
         let b = *rng.pick(&[128usize, 1024]);
-        let nl = rng.below(3);
+        let nl = *rng.pick(&[0u64, 1, 2, 4, 6]);
         let plans: Vec<ReqPlan> = (0..k).map(|_| { let mut p = gen_req(&mut rng, true, nl, mc, b, false); if rng.chance(1, 3) && p.script != "-" && !p.script.starts_with('~') && !p.opens { p.script = format!("~{}", p.script); } p }).collect();
         let wire: Vec<u8> = plans.iter().flat_map(|p| ser_all(&p.recs)).collect();
         let hs: String = plans.iter().map(|p| p.script.clone()).collect::<Vec<_>>().join(";");
@@ -442,9 +442,9 @@ pub fn run_c12(ctx: &mut Ctx) {
         offs.retain(|&o| o <= wire.len());
         for o in offs { faults.push((format!("eof@{o}"), format!("t.run B={b} mc={mc} in={} end=eof rd={rd} wr={wr} fl=- stop=none h={hs}", hexd(&wire[..o])))); }
         let set_nth = |script: &str, n: usize, what: &str| -> String { let mut v: Vec<String> = if script == "-" { vec![] } else { script.split(',').map(|s| s.to_string()).collect() }; while v.len() <= n { v.push("A".into()); } v[n] = what.into(); v.join(",") };
-        let step = if thorough { 1 } else { (nreads / 12).max(1) };
+        let step = if thorough || nreads <= 100 { 1 } else { (nreads / 100).max(1) };
         for i in (0..nreads).step_by(step) { faults.push((format!("readerr@{i}"), format!("t.run B={b} mc={mc} in={} end=eof rd={} wr={wr} fl=- stop=none h={hs}", hexd(&wire), set_nth(&rd, i, "E")))); }
-        let step = if thorough { 1 } else { (nwrites / 12).max(1) };
+        let step = if thorough || nwrites <= 150 { 1 } else { (nwrites / 150).max(1) };
         for i in (0..nwrites).step_by(step) { for what in ["E", "Z"] { faults.push((format!("write{what}@{i}"), format!("t.run B={b} mc={mc} in={} end=eof rd={rd} wr={} fl=- stop=none h={hs}", hexd(&wire), set_nth(&wr, i, what)))); } }
         for (fi, (kind, op)) in faults.iter().enumerate() {
             log.case(&format!("c12-{ci}-{fi}"));
